@@ -75,6 +75,9 @@ class GitCommitBuilder(CommitBuilder):
             if change.kind == (None, None):
                 # Ephemeral
                 continue
+            # The source of a copy is still present in the tree: only the
+            # new path is recorded, the old path must not be removed.
+            old_path = None if change.copied else change.path[0]
             if change.versioned[0] and not change.copied:
                 file_id = self._mapping.generate_file_id(change.path[0])
             elif change.versioned[1]:
@@ -90,7 +93,7 @@ class GitCommitBuilder(CommitBuilder):
             if change.kind[1] in ("directory",):
                 self._inv_delta.append(
                     (
-                        change.path[0],
+                        old_path,
                         change.path[1],
                         file_id,
                         entry_factory[change.kind[1]](
@@ -98,8 +101,8 @@ class GitCommitBuilder(CommitBuilder):
                         ),
                     )
                 )
-                if change.kind[0] in ("file", "symlink"):
-                    self._blobs[encode_git_path(change.path[0])] = None
+                if old_path is not None and change.kind[0] in ("file", "symlink"):
+                    self._blobs[encode_git_path(old_path)] = None
                     self._any_changes = True
                 if change.path[1] == "":
                     seen_root = True
@@ -146,9 +149,9 @@ class GitCommitBuilder(CommitBuilder):
             else:
                 raise AssertionError(f"Unknown kind {change.kind[1]!r}")
             mode = object_mode(change.kind[1], change.executable[1])
-            self._inv_delta.append((change.path[0], change.path[1], file_id, entry))
-            if change.path[0] is not None:
-                self._deleted_paths.add(encode_git_path(change.path[0]))
+            self._inv_delta.append((old_path, change.path[1], file_id, entry))
+            if old_path is not None:
+                self._deleted_paths.add(encode_git_path(old_path))
             self._blobs[encode_git_path(change.path[1])] = (mode, sha)
             if st is not None:
                 yield change.path[1], (entry.git_sha1, st)
